@@ -44,7 +44,11 @@ MANIFEST = dict(
           "exactly by the arbitrary-equinox rotation (orthogonality from sin^2+cos^2=1), within 1e-9 r^2 by the "
           "decimal J2000 matrix, r^2 (1 + sin^2 beta) for the mean-equinox function as coded; "
           "rectangular_coordinates_b1950 is NOT the B1950 matrix applied to the vector (counterexample + what it does "
-          "compute); true obliquity = mean + nutation (mod 360); mean obliquity within 3 arcsec of the IAU cubic for "
+          "compute); rectangular_coordinates_equinox at the equinox J2000.0 is rectangular_coordinates_j2000; Angle(0, 0, s) "
+          "is exactly s/3600 degrees below a full turn (all carries); mean obliquity = Laskar's polynomial in closed "
+          "form; shape and first rows of the nutation tables; the annual frequency is shared by the J2000 latitude and "
+          "longitude tables and equals the L1 rate, while the second harmonic of VSOP87_L_J2000 is mistyped "
+          "(counterexample theorem for the known finding); true obliquity = mean + nutation (mod 360); mean obliquity within 3 arcsec of the IAU cubic for "
           "|u| <= 0.2; nutation in longitude / obliquity within 3.5 / 1.5 arcsec of the main-term model, both on the series' "
           "own node argument and on Moon.longitude_mean_ascending_node, for |T| <= 40 centuries, from the sums of the "
           "absolute values of the generated coefficients. PARTIAL: 'equals the "
